@@ -377,7 +377,9 @@ class NNVariationalStrategy(UnwhitenedVariationalStrategy):
 
         # Interpolation term K_nn^{-1} k_{nu}
         interp_term = torch.linalg.solve(
-            nearest_neighbors_prior_cov + self.jitter_val * torch.eye(self.k, device=self.inducing_points.device),
+            nearest_neighbors_prior_cov
+            + self.jitter_val
+            * torch.eye(self.k, dtype=nearest_neighbors_prior_cov.dtype, device=self.inducing_points.device),
             nearest_neighbors_inducing_prior_cross_cov,
         ).squeeze(
             -1
